@@ -4,4 +4,4 @@ Require Extraction.
 From Coq Require Import ExtrOcamlBasic.
 From KV Require Import Lib.Bits Lib.Bytes Model.Legacy Model.ConnOps.
 Extraction Language OCaml.
-Extraction "c11_model.ml" conn_do conn_do_i conn_nop conn_run fresh negotiate enc resp_ty frame vflat field.
+Extraction "c11_model.ml" conn_do conn_do_i conn_nop conn_run deadline_of stalled_exchange fresh negotiate enc resp_ty frame vflat field.
